@@ -20,7 +20,7 @@ Not decided: that the MTST / improver produce a tree over all terminals; junctio
 import itertools
 from fractions import Fraction
 
-from ..astq import strip, strip_casts, calls, call_args, call_object, norm, writes
+from ..astq import strip, strip_casts, calls, call_args, call_object, norm, writes, written_field
 from ..cfg import CFG
 from ..facts import AnalysisBroken, walk
 from ..microai.interp import Interp, Obj, Vec, Box, Oracle, AssertFail, Thrown, Unsupported, default_obj
@@ -83,7 +83,7 @@ def expected_paths(spec, root):
     return paths
 
 
-def run_tree(prog, spec, root):
+def run_tree(prog, spec, root, old_conns_know_terminals=True):
     nodes, edges = build(prog, spec)
     conns = []
 
@@ -108,6 +108,8 @@ def run_tree(prog, spec, root):
     def getce(it, n, env):
         a = call_args(n)
         v = it.ev(a[0], env)
+        if not old_conns_know_terminals:
+            return False
         ce = default_obj(prog, "Avoid::ConnEnd", {})
         ce.f["_terminal"] = v.f["_name"]
         it.lv(a[1], env).set(ce)
@@ -121,7 +123,7 @@ def run_tree(prog, spec, root):
     router = default_obj(prog, "Avoid::Router", {})
     old = default_obj(prog, "Avoid::ConnRef", {})
     it.call(prog.fn("Avoid::HyperedgeTreeNode::addConns"), nodes[root], None, None,
-            arg_values=[None, router, Box(Vec([old], "Avoid::ConnRef *")), None])
+            arg_values=[None, router, Box(Vec([old] if old_conns_know_terminals else [], "Avoid::ConnRef *")), None])
     js, cs = Vec([], "Avoid::JunctionRef *"), Vec([], "Avoid::ConnRef *")
     it.call(prog.fn("Avoid::HyperedgeTreeNode::listJunctionsAndConnectors"), nodes[root], None, None, arg_values=[None, Box(js), Box(cs)])
     wr = prog.fn("Avoid::HyperedgeTreeNode::writeEdgesToConns")
@@ -130,10 +132,10 @@ def run_tree(prog, spec, root):
     return nodes, edges, conns, js, cs
 
 
-def check_tree(prog, spec, root):
+def check_tree(prog, spec, root, old_conns_know_terminals=True):
     """Returns None or a description of the first deviation."""
     try:
-        nodes, edges, conns, js, cs = run_tree(prog, spec, root)
+        nodes, edges, conns, js, cs = run_tree(prog, spec, root, old_conns_know_terminals)
     except AssertFail as e:
         return "assertion fails while writing the tree back: %s" % e
     kind = {k: v[0] for k, v in spec["nodes"].items()}
@@ -262,6 +264,20 @@ def rule_writeback(chk, prog, tier):
             if seen_bad <= 3:
                 r.count()
                 r.bad(name, prog.fn("Avoid::HyperedgeTreeNode::addConns").where(), bad)
+    # a hyperedge registered by its terminals (registerHyperedgeForRerouting(ConnEndList)) has no old connectors to take the
+    # terminal ConnEnds from: m_deleted_connectors_vector[i] is empty on that path
+    r.count()
+    name, spec, root = HAND[0]
+    try:
+        bad = check_tree(prog, spec, root, old_conns_know_terminals=False)
+    except (Unsupported, Thrown) as e:
+        raise AnalysisBroken("hyperedge write-back outside the interpreter subset (terminal registration): %s" % e)
+    inst = "star registered by terminals (no old connectors)"
+    if bad:
+        r.bad(inst, prog.fn("Avoid::HyperedgeTreeEdge::addConns").where(), bad + " -- HyperedgeTreeEdge::addConns takes a terminal's ConnEnd only from "
+              "the hyperedge's previous connectors")
+    else:
+        r.ok(inst, prog.fn("Avoid::HyperedgeTreeEdge::addConns").where())
     r.count(n - len(HAND))
     if not seen_bad:
         r.ok("generated trees", prog.fn("Avoid::HyperedgeTreeNode::addConns").where(), "%d trees" % (n - len(HAND)))
@@ -333,7 +349,96 @@ def rule_reroute_lists(chk, prog):
         "inputs cleared", fn.where(), "" if len(clr) == 2 else "registered hyperedges are not cleared after rerouting (they would be rerouted again)")
 
 
+def rule_object_lists(chk, prog):
+    r = chk.rule("OBJECT-LISTS", "bookkeeping of created / removed hyperedge objects: HyperedgeRerouter::findAttachedObjects records every "
+                 "connector and every junction it visits as deleted (on every path); in HyperedgeImprover every `new ConnRef` / `new "
+                 "JunctionRef` is appended to m_new_connectors / m_new_junctions, every connector or junction dropped from the tree "
+                 "(`edge->conn = nullptr`, `node->junction = nullptr` without handing it to another node) is first appended to "
+                 "m_deleted_connectors / m_deleted_junctions, and execute() hands every entry of both lists to the router", floor=7)
+    # ---- rerouter
+    for f in prog.fns("Avoid::HyperedgeRerouter::findAttachedObjects"):
+        g = CFG(f)
+        p1 = f.params[1]
+        kind = "junction" if "JunctionRef" in p1["t"] else "connector"
+        vec = "m_deleted_%ss_vector[index]" % kind
+        pb = [c["id"] for c in calls(f) if c.get("cname", "").endswith("::push_back") and norm(call_object(c)) == vec and norm(call_args(c)[0]) == p1["name"]]
+        r.count()
+        w = g.exit_reachable_avoiding(pb) if pb else []
+        if w is not None:
+            r.bad("findAttachedObjects(%s)" % kind, f.where(), "a visited %s is not recorded in %s%s: after rerouting it is neither deleted nor "
+                  "reported, and stays live outside the hyperedge tree" % (kind, vec, (" on " + g.describe(w)) if w else ""))
+        else:
+            r.ok("findAttachedObjects(%s)" % kind, f.where())
+    # ---- improver
+    imp = [f for f in prog.all_functions() if f.cls == "Avoid::HyperedgeImprover" and f.body is not None]
+    n_new = n_drop = 0
+    for f in imp:
+        g = None
+        for n in f.nodes():
+            if n.get("k") == "CXXNewExpr" and n.get("at") in ("Avoid::ConnRef", "Avoid::JunctionRef"):
+                g = g or CFG(f)
+                lst = "m_new_connectors" if n["at"].endswith("ConnRef") else "m_new_junctions"
+                pb = [c["id"] for c in calls(f) if c.get("cname", "").endswith("::push_back") and norm(call_object(c)) == lst]
+                n_new += 1
+                r.count()
+                anchor = n
+                for a in f.ancestors(n):
+                    if a.get("id") in g.pos:
+                        anchor = a
+                        break
+                w = g.must_follow(anchor["id"], pb) if pb and anchor.get("id") in g.pos else []
+                inst = "%s: new %s" % (f.q, n["at"].split("::")[-1])
+                if w is not None:
+                    r.bad(inst, f.loc(n), "an object created during improvement is not recorded in %s" % lst)
+                else:
+                    r.ok(inst, f.loc(n))
+        for lhs, node, op in writes(f):
+            fq = written_field(lhs)[0]
+            if op != "=" or fq not in ("Avoid::HyperedgeTreeEdge::conn", "Avoid::HyperedgeTreeNode::junction"):
+                continue
+            rhs = strip_casts(node["ch"][1])
+            if rhs.get("k") not in ("CXXNullPtrLiteralExpr", "GNUNullExpr"):
+                continue
+            g = g or CFG(f)
+            n_drop += 1
+            r.count()
+            what = norm(lhs)
+            lst = "m_deleted_connectors" if fq.endswith("conn") else "m_deleted_junctions"
+            pb = [c["id"] for c in calls(f) if c.get("cname", "").endswith("::push_back") and norm(call_object(c)) == lst and norm(call_args(c)[0]) == what]
+            handed = [nd["id"] for l2, nd, o2 in writes(f) if o2 == "=" and written_field(l2)[0] == fq and norm(nd["ch"][1]) == what]
+            inst = "%s: %s = nullptr" % (f.q, what)
+            if node["id"] not in g.pos:
+                raise AnalysisBroken("store %s is not a CFG element" % inst)
+            w = g.must_precede(pb + handed, node["id"])
+            if w is not None:
+                r.bad(inst, f.loc(node), "the %s is dropped from the hyperedge tree without being recorded in %s (or handed to another "
+                      "node) on %s: it is never deleted and missing from the reported lists" % ("connector" if fq.endswith("conn") else "junction", lst, g.describe(w)))
+            else:
+                r.ok(inst, f.loc(node))
+    if n_new < 2 or n_drop < 2:
+        raise AnalysisBroken("HyperedgeImprover: creation / removal sites not recognised (%d, %d)" % (n_new, n_drop))
+    ex = prog.fn("Avoid::HyperedgeImprover::execute")
+    g = CFG(ex)
+    for cname, lst in (("Avoid::Router::deleteConnector", "m_deleted_connectors"), ("Avoid::Router::deleteJunction", "m_deleted_junctions")):
+        cs = [c for c in calls(ex) if c.get("cname") == cname]
+        r.count()
+        bad = None
+        if not cs:
+            bad = "%s is never called" % cname
+        else:
+            il = [x for x in ex.ancestors(cs[0]) if x.get("k") == "ForStmt"]
+            if not il or lst + ".begin()" not in norm(il[0].get("init")) or lst + ".end()" not in norm(il[0].get("cond")) or \
+                    g.iteration_can_skip(il[0], [cs[0]["id"]]) is not None or norm(call_args(cs[0])[0]) != "curr.*":
+                bad = "not every entry of %s is deleted" % lst
+            else:
+                ini = [x["id"] for x in walk(il[0].get("init") or {}) if x.get("id") in g.pos]
+                if ini and g.exit_reachable_avoiding(ini[:1]) is not None:
+                    bad = "execute() can return without deleting the entries of %s" % lst
+        (r.bad if bad else r.ok)("execute: " + lst, ex.loc(cs[0]) if cs else ex.where(), bad or "")
+
+
 def run(chk):
     prog = chk.load()
     rule_writeback(chk, prog, chk.tier)
     rule_reroute_lists(chk, prog)
+    rule_object_lists(chk, prog)
